@@ -19,6 +19,7 @@ use sos_core::{
     VaultFlags,
 };
 use std::panic::{catch_unwind, AssertUnwindSafe};
+mod logops;
 mod reducer;
 mod search;
 mod tree;
@@ -306,6 +307,7 @@ fn main() {
             if all || ty == "CommitHash" { roundtrip!("CommitHash", CommitHash, |r: &mut Rng| CommitHash(r.arr()), cases, seed); }
             if all || ty == "Comparison" { roundtrip!("Comparison", Comparison, gen_comparison, cases, seed); }
         }
+        "log-ops" => { rt().block_on(logops::run(cases, seed)); }
         "search-index" => { search::run(cases, seed); }
         "tree-compare" => { tree::run(cases); }
         "reducer-replay" => {
